@@ -217,8 +217,6 @@ def run(ctx: Ctx) -> None:
     ctx.notes["operators_that_yielded_mutants"] = len(ops_seen)
     ctx.notes["configurations_x_routes"] = len(cfg_seen)
     ctx.notes["harness_resets_after_damage"] = resets
-    if len(ops_seen) < len(ad.ALL_OPERATORS):
-        raise MachineryError(f"only {len(ops_seen)} of {len(ad.ALL_OPERATORS)} operators produced a mutant")
     referr = sorted({t["meta"]["reference_raised"] for t in keep if t["meta"]["reference_raised"]})
     if referr:
         ctx.drift.append(f"the reference (full) enumeration itself raised {referr}; the recorded prefix is used")
@@ -241,6 +239,11 @@ def run(ctx: Ctx) -> None:
             ev = tr["ev"][step - 1]
             ctx.bad(clause, signature(tr, ev, clause), _detail(tr, ev, step), trace=_strip(tr),
                     behaviour=keep_jobs[idx])
+
+    # vacuity guard -- only meaningful when the enumerations ran (a broken enumeration is a verdict above)
+    if len(ops_seen) < len(ad.ALL_OPERATORS) and not any(
+            b.clause != "CountEqualsFull" and not b.signature.endswith("-while-suspended") for b in ctx.bads):
+        raise MachineryError(f"only {len(ops_seen)} of {len(ad.ALL_OPERATORS)} operators produced a mutant")
 
     # drift: what the as-coded design model predicts vs what the real code showed
     predicted_exit = "RestoredAtQuiescence" in designs["as-coded/early-exit"]["violated"]
